@@ -479,6 +479,7 @@ impl<'tcx> Cx<'tcx> {
                     let mut cname = String::new();
                     let mut closure_call = false;
                     let mut self_adt = String::new();
+                    let mut closure_keys: Vec<String> = vec![];
                     if let ty::FnDef(cd, cargs) = fty.kind() {
                         match Instance::try_resolve(self.tcx, self.env, *cd, cargs) {
                             Ok(Some(ci)) => {
@@ -505,6 +506,7 @@ impl<'tcx> Cx<'tcx> {
                                     if let Some(t) = ga.as_type() {
                                         if let ty::Closure(cdid, cargs2) = t.kind() {
                                             let ci2 = Instance::new_raw(*cdid, cargs2);
+                                            closure_keys.push(esc(&self.inst_key(ci2)));
                                             queue.push(ci2);
                                         }
                                     }
@@ -521,13 +523,14 @@ impl<'tcx> Cx<'tcx> {
                     let aty: Vec<String> = args.iter().map(|x| esc(&self.mono(i, x.node.ty(body, self.tcx)).to_string())).collect();
                     let _ = write!(
                         s,
-                        "{{\"t\":\"call\",\"callee\":{},\"cdef\":{},\"leaf\":{},\"crate\":{},\"closure_call\":{},\"self_adt\":{},\"args\":[{}],\"argtys\":[{}],\"dest\":{},\"to\":{},\"at\":{}}}",
+                        "{{\"t\":\"call\",\"callee\":{},\"cdef\":{},\"leaf\":{},\"crate\":{},\"closure_call\":{},\"self_adt\":{},\"closures\":[{}],\"args\":[{}],\"argtys\":[{}],\"dest\":{},\"to\":{},\"at\":{}}}",
                         callee,
                         esc(&cdef),
                         leaf,
                         esc(&cname),
                         closure_call,
                         esc(&self_adt),
+                        closure_keys.join(","),
                         a.join(","),
                         aty.join(","),
                         self.place(i, body, destination),
